@@ -20,6 +20,8 @@ CLAIMED = {
             'well-formed, covers the domain start and equals the dense-time semantics at every instant of the common domain'),
     'C05': ('6.C05', 'every split of the n samples of each variable into consecutive update() batches is enumerated; for each schedule z3 shows, for all '
             'time-stamps, values and instants, that the concatenated output is monotone and equals the offline robustness of the whole signal'),
+    'C06': ('6.C06', 'semantics x monitor kind x io-assignment x predicate x context are enumerated; for each configuration z3 shows equality with the '
+            'README_extensions predicate override for all sample values (and all instants in dense time)'),
 }
 NA = {
     'C14': 'the quantifier ranges over strings and every string is consumed by the ANTLR4 ATN interpreter, which cannot be encoded or '
